@@ -51,6 +51,12 @@ def cases(ctx):
                 c["params"] = {"TrueThreshold": mid + q, "FalseThreshold": mid - q} if rng.random() < 0.5 else {"TrueThreshold": mid - q, "FalseThreshold": mid + q}
         if cmd == "FuzzyWeightedUnion" and rng.random() < 0.3:
             c["params"]["Weights"] = [rng.choice([-1, 2, 3, -0.5, 5]) for _ in c["inputs"]]
+        if cmd == "FuzzyWeightedUnion" and len(c["inputs"]) >= 2 and rng.random() < 0.15:
+            # weights that cancel, over fields that agree (0 / 0 at valid cells): whatever comes out, no NaN and nothing outside the range
+            n_ = len(c["inputs"])
+            c["params"]["Weights"] = ([1, -1] if n_ == 2 else [2] + [-1, -1] + [0] * (n_ - 3))
+            import copy as _copy
+            c["inputs"] = [_copy.deepcopy(c["inputs"][0]) for _ in range(n_)]
         if rng.random() < 0.15:
             # NaN stored underneath the missing cells of float inputs (masked_invalid data, NaN fill values)
             c["inputs"] = [arr.with_payload(s_, "nan") for s_ in c["inputs"]]
